@@ -148,14 +148,35 @@ func (o *Once) Do(f func()) {
 
 // Map mirrors sync.Map: a plain map; every operation is atomic and a scheduling point.
 type Map struct {
-	h vrt.Handle
-	m map[interface{}]interface{}
+	h      vrt.Handle
+	m      map[interface{}]interface{}
+	owner  int // id+2 of the only thread that has touched the map so far
+	shared bool
 }
 
-func (m *Map) init() {
+// LocalMaps enables the thread-confined optimisation: operations on a map that only one thread
+// has ever touched are not scheduling points.
+var LocalMaps = true
+
+// op runs f as an atomic operation on the map; it is a scheduling point once the map is shared.
+func (m *Map) op(name string, f func(v uint64) uint64) {
 	if vrt.Bind(&m.h) || m.m == nil {
 		m.m = make(map[interface{}]interface{})
+		m.owner, m.shared = 0, false
 	}
+	if LocalMaps && !m.shared {
+		me := vrt.ThreadID() + 2
+		if m.owner == 0 {
+			m.owner = me
+		}
+		if m.owner == me {
+			vrt.UpdateLocal(&m.h, f)
+			return
+		}
+		m.shared = true
+		vrt.Publish(&m.h)
+	}
+	vrt.Update(&m.h, name, f)
 }
 
 func hv(k, v interface{}) uint64 {
@@ -163,8 +184,7 @@ func hv(k, v interface{}) uint64 {
 }
 
 func (m *Map) Load(key interface{}) (value interface{}, ok bool) {
-	m.init()
-	vrt.Update(&m.h, "Map.Load", func(v uint64) uint64 {
+	m.op("Map.Load", func(v uint64) uint64 {
 		value, ok = m.m[key]
 		return v
 	})
@@ -172,8 +192,7 @@ func (m *Map) Load(key interface{}) (value interface{}, ok bool) {
 }
 
 func (m *Map) Store(key, value interface{}) {
-	m.init()
-	vrt.Update(&m.h, "Map.Store", func(v uint64) uint64 {
+	m.op("Map.Store", func(v uint64) uint64 {
 		if old, ok := m.m[key]; ok {
 			v ^= hv(key, old)
 		}
@@ -183,8 +202,7 @@ func (m *Map) Store(key, value interface{}) {
 }
 
 func (m *Map) LoadOrStore(key, value interface{}) (actual interface{}, loaded bool) {
-	m.init()
-	vrt.Update(&m.h, "Map.LoadOrStore", func(v uint64) uint64 {
+	m.op("Map.LoadOrStore", func(v uint64) uint64 {
 		if old, ok := m.m[key]; ok {
 			actual, loaded = old, true
 			return v
@@ -197,8 +215,7 @@ func (m *Map) LoadOrStore(key, value interface{}) (actual interface{}, loaded bo
 }
 
 func (m *Map) Delete(key interface{}) {
-	m.init()
-	vrt.Update(&m.h, "Map.Delete", func(v uint64) uint64 {
+	m.op("Map.Delete", func(v uint64) uint64 {
 		if old, ok := m.m[key]; ok {
 			v ^= hv(key, old)
 			delete(m.m, key)
@@ -210,9 +227,8 @@ func (m *Map) Delete(key interface{}) {
 // Range snapshots the keys (sorted by printed form: map order is owned) at one scheduling point
 // and calls f for each entry still present.
 func (m *Map) Range(f func(key, value interface{}) bool) {
-	m.init()
 	var keys []interface{}
-	vrt.Update(&m.h, "Map.Range", func(v uint64) uint64 {
+	m.op("Map.Range", func(v uint64) uint64 {
 		for k := range m.m {
 			keys = append(keys, k)
 		}
